@@ -370,7 +370,7 @@ bool LineParser::parse_git_extended_info(Patch& patch, int strip)
     auto parse_filename = [&](std::string& output, const std::string& prefix) {
         // NOTE: we do 'strip - 1' here as the extended headers do not come with a leading
         // "a/" or "b/" prefix - strip the filename as if this part is already stripped.
-        const int extended_strip = strip <= 0 ? -1 : strip - 1;
+        const int extended_strip = strip > 0 ? strip - 1 : strip;
         if (peek() == '"') {
             output = parse_quoted_string();
             output = strip_path(output, extended_strip);
